@@ -135,9 +135,15 @@ def _pinned_fn():
     return [{"nw": 3, "K": 2, "T": 12, "seed": 1, "col_offsets": "large", "shift_scale": 10.0}]
 
 
+def _pinned_e2e():
+    # converged runs whose final labelling has a one-member cluster: the last round began with a repopulation, so the
+    # fitted means differ from the final members' centroids (defect repaired in b83760a; kept as regression cases)
+    return [{'front': 'single', 'N': 1, 'W': 2, 'K': 3, 'lengths': [30], 'regimes': 3, 'mean_spread': 6.0, 'data_seed': 218, 'np_seed': 0, 'py_seed': 0, 'beta': 0.0, 'beta_form': 'scalar', 'lam': 0.0, 'lam_form': 'scalar', 'limit': 5, 'm': 2, 'biased': True, 'eps': 0, 'num_processors': 1, 'boundary_regime_flip': False}, {'front': 'single', 'N': 2, 'W': 2, 'K': 4, 'lengths': [56], 'regimes': 4, 'mean_spread': 0.0, 'data_seed': 50, 'np_seed': 1, 'py_seed': 1, 'beta': 2.0, 'beta_form': 'scalar', 'lam': 0.0, 'lam_form': 'scalar', 'limit': 5, 'm': 2, 'biased': False, 'eps': 0, 'num_processors': 1, 'boundary_regime_flip': False}]
+
+
 SUBCHECKS = [
     SubCheck(name="ch_function_vs_definition_and_translation", strategy=function_case, execute=execute_function, pinned=_pinned_fn,
              budget={"quick": 600, "thorough": 20000}, shards={"quick": 2, "thorough": 8}, modes=["jit"]),
     SubCheck(name="ch_end_to_end_converged_runs", strategy=lambda: gen.e2e_config(betas=(0.0, 0.5, 2.0, 10.0, 50.0), limits=(5, 30)),
-             execute=execute_e2e, budget={"quick": 160, "thorough": 3000}, shards={"quick": 16, "thorough": 8}, modes=E2E_MODES),
+             execute=execute_e2e, pinned=_pinned_e2e, budget={"quick": 160, "thorough": 3000}, shards={"quick": 16, "thorough": 8}, modes=E2E_MODES),
 ]
